@@ -28,7 +28,7 @@ ASSUMPTIONS = [
     "observed_only=False and the un-maskable accessors are outside this relation",
 ]
 
-EXCLUDE = ("sum_obsF",)
+EXCLUDE = ("sum_obsF", "size_obsF")
 
 
 class MaskSpace(Subspace):
